@@ -70,7 +70,51 @@ def _memo_call(f, args, kwargs):
     return r
 
 
+_SYMKEYS = {}  # id(dict) -> (solver of the run, [(key, value)]): entries stored under symbolic keys
+
+
+def _has_sym(x):
+    if is_sym(x):
+        return True
+    if isinstance(x, (tuple, list)):
+        return any(_has_sym(y) for y in x)
+    return False
+
+
+def _side(d, create=False):
+    if Ctx.current is None:
+        return None
+    e = _SYMKEYS.get(id(d))
+    if e is not None and e[0] is Ctx.current.solver and e[2] is d:
+        return e[1]
+    if create:
+        _SYMKEYS[id(d)] = (Ctx.current.solver, [], d)
+        return _SYMKEYS[id(d)][1]
+    return None
+
+
+def setitem(obj, key, val):
+    if Ctx.current is not None and type(obj) is dict and _has_sym(key):
+        models._used("dict keyed by symbolic values: association list consulted before the concrete dictionary")
+        _side(obj, True).append((key, val))
+        return
+    obj[key] = val
+
+
+def _side_lookup(d, key):
+    """(found, value) among the symbolic-key entries, newest first"""
+    es = _side(d)
+    if es:
+        for k, v in reversed(es):
+            if key == k:
+                return True, v
+    return False, None
+
+
 def _dict_get(d, key, default=None):
+    found, v = _side_lookup(d, key)
+    if found:
+        return v
     for k in d:
         if key == k:
             return d[k]
@@ -104,12 +148,18 @@ def getitem(obj, idx):
                 return SInt(e)
             return obj[concretize(idx)]
         if isinstance(obj, dict):
+            found, v = _side_lookup(obj, idx)
+            if found:
+                return v
             for k in obj:
                 if idx == k:
                     return obj[k]
             raise KeyError(idx)
         raise Unsupported(f"symbolic index into {type(obj).__name__}")
-    if is_sym(idx) and isinstance(obj, dict):
+    if isinstance(obj, dict) and (_has_sym(idx) or _side(obj)):
+        found, v = _side_lookup(obj, idx)
+        if found:
+            return v
         for k in obj:
             if idx == k:
                 return obj[k]
@@ -121,6 +171,14 @@ def contains(a, b):
     c = getattr(b, "_sx_contains", None)
     if c is not None:
         return c(a)
+    if isinstance(b, dict) and (_has_sym(a) or _side(b)):
+        found, _ = _side_lookup(b, a)
+        if found:
+            return True
+        for x in b:
+            if a == x:
+                return True
+        return False
     if is_sym(a) and isinstance(b, (list, tuple, set, frozenset, dict)) or (
         isinstance(b, (list, tuple)) and any(is_sym(x) for x in b)
     ):
